@@ -202,6 +202,7 @@ class RunResult:
             "signature": self.violation["signature"] if self.violation else None,
             "message": self.violation["message"] if self.violation else None,
             "digest": self.digest,
+            "hashseed": os.environ.get("PYTHONHASHSEED", ""),
         }
 
 
